@@ -18,9 +18,10 @@ PROPERTY = "C17"
 LEVEL = "exploration"
 EXHAUSTIVE = {"quick": True, "thorough": True}
 RULE = (
-    "application with a lenient command, a command with a default sub-command, typed options and a failing handler; a catalogue "
-    "of 25 command lines (valid, missing / surplus argument, unknown option / command, help in its three forms, help with an "
-    "ill-typed option, version, empty line, lenient lines). Every history of length 2..L over the catalogue is run on ONE "
+    "application with a lenient command, a command that is lenient through an overridden configuration default, a command with a default sub-command, typed options, a failing "
+    "handler and one parser object shared by four commands; a catalogue "
+    "of 31 command lines (valid, missing / surplus argument, unknown option / command, help in its three forms, help with an "
+    "ill-typed option, version, empty line, lenient lines, -v / -vvv runs). Every history of length 2..L over the catalogue is run on ONE "
     "application and each run compared (status, stdout, stderr, handler arguments) with the same line on a fresh "
     "application; each history is run with fresh RawArgs per run and with the same RawArgs object reused for consecutive "
     "equal lines. Components (table, help pages, paragraph, labeled paragraph, name/version, exception trace) are rendered "
@@ -29,8 +30,8 @@ RULE = (
     "run before a normal run; distinct by tuple of line ids / (order, customisation)."
 )
 BOUND = {
-    "quick": "all 625 histories of length 2 + 1500 sampled of length 3 x 2 RawArgs modes; 12 style orders; 40 component double renders",
-    "thorough": "all histories of length 2-3 (16250) + 20000 sampled of length 4 x 2 RawArgs modes; 24 orders x 5 customisations; 400 double renders",
+    "quick": "all 961 histories of length 2 + 1500 sampled of length 3 x 2 RawArgs modes; 12 style orders; 40 component double renders",
+    "thorough": "all histories of length 2-3 (30752) + 20000 sampled of length 4 x 2 RawArgs modes; 24 orders x 5 customisations; 400 double renders",
 }
 ASSUMPTIONS = [
     "two runs are equal when status, both streams and the recorded handler invocations (command, arguments, options) are equal",
@@ -41,6 +42,8 @@ LINES = [
     ["one", "x", "--num=bad", "--help"], ["one", "x", "--version"], [], ["len"], ["len", "a", "b", "c"], ["grp", "x"], ["grp"], ["bad"], ["help", "grp"],
     ["many", "a", "--", "-x", "--flag"], ["many", "b", "--flag"], ["many", "c", "--version"], ["many", "--flag", "d", "e"],
     ["one", "--num=7", "x", "y"], ["one", "x", "--num=8", "--bogus"], ["one", "-V", "x", "--bogus"],
+    # 25-30: verbosity switches (a switch governs its own run), a command that is lenient through an overridden default
+    ["one", "x", "-vvv"], ["bad", "-vvv"], ["one", "x", "-v"], ["dfl", "a", "b", "c"], ["help", "dfl"], ["dfl", "--help"],
 ]
 
 
@@ -70,13 +73,30 @@ class Env(object):
                     raise RuntimeError("handler failed")
                 return 0
 
+        from clikit.api.config.command_config import CommandConfig
+        from clikit.args import DefaultArgsParser
+
+        class LenientByDefault(CommandConfig):
+            """A command configuration whose default (not its explicit setting) is lenient parsing."""
+
+            @property
+            def default_lenient_args_parsing(self):
+                return True
+
+        shared_parser = DefaultArgsParser()  # one parser object for several commands
         c = self.Config("my-app", "1.0")
         c.set_terminate_after_run(False)
+        dfl = LenientByDefault("dfl")
+        dfl.set_description("lenient by default").add_argument("a", A.REQUIRED, "arg a").set_handler(H("dfl"))
+        dfl.set_args_parser(shared_parser)
+        c.add_command_config(dfl)
         one = c.create_command("one").set_description("the one")
         one.add_argument("a", A.REQUIRED, "arg a").add_option("num", None, O.REQUIRED_VALUE | O.INTEGER, "a number").set_handler(H("one"))
         le = c.create_command("len").set_description("lenient")
         le.add_argument("a", A.REQUIRED, "arg a").enable_lenient_args_parsing()
         le.set_handler(H("len"))
+        le.set_args_parser(shared_parser)
+        one.set_args_parser(shared_parser)
         grp = c.create_command("grp").set_description("group")
         grp.set_handler(H("grp"))
         sub = grp.create_sub_command("sub").default()
@@ -86,6 +106,7 @@ class Env(object):
         c.create_command("bad").set_description("fails").set_handler(H("bad", True))
         many = c.create_command("many").set_description("many values")
         many.add_argument("items", A.MULTI_VALUED, "items").add_option("flag", "f", O.NO_VALUE, "a flag").set_handler(H("many"))
+        many.set_args_parser(shared_parser)
         return self.App(c)
 
     def run(self, app, raw):
@@ -138,9 +159,9 @@ def classify(record, k):
     return None
 
 
-HELPISH = {6, 7, 8, 9, 17}
-FAILING = {2, 3, 4, 5, 9, 16}
-NORMAL = {0, 1, 12, 13, 14, 15, 19, 21}
+HELPISH = {6, 7, 8, 9, 17, 29, 30}
+FAILING = {2, 3, 4, 5, 9, 16, 26}
+NORMAL = {0, 1, 12, 13, 14, 15, 19, 21, 25, 27, 28}
 
 
 def nontrivial(idx):
@@ -187,10 +208,22 @@ def double_renders(sh, env, n):
         verbosity = rng.choice([0, 1, 2, 4])
         if kind == 0:
             t = Table(getattr(TableStyle, rng.choice(["ascii", "solid", "borderless", "compact"]))())
-            t.set_header_row(["A", "B", "C"])
-            for _ in range(rng.randint(1, 4)):
-                t.add_row([" ".join("w%d" % rng.randint(0, 99) for _ in range(rng.randint(1, 30))) for _ in range(3)])
+            how = (i // 7) % 5
+            mk = (lambda cells: tuple(cells)) if how in (1, 3) else (lambda cells: list(cells))
+            t.set_header_row(mk(["A", "B", "C"]))
+            rows = [mk([" ".join("w%d" % rng.randint(0, 99) for _ in range(rng.randint(1, 30))) for _ in range(3)]) for _ in range(rng.randint(1, 4))]
+            if how in (0, 1):
+                for r in rows:
+                    t.add_row(r)
+            elif how == 2:
+                t.add_rows(rows)
+            elif how == 3:
+                t.set_rows(tuple(rows))
+            else:
+                t.add_rows(rows)
+                t.set_row(0, tuple(rows[-1]))
             comp, label = t, "Table"
+            sh.tag("table_row_styles", ["add_row(list)", "add_row(tuple)", "add_rows(lists)", "set_rows(tuple of tuples)", "set_row(tuple)"][how])
         elif kind == 1:
             comp, label = ApplicationHelp(app), "ApplicationHelp"
         elif kind == 2:
@@ -222,7 +255,7 @@ def double_renders(sh, env, n):
 
 # ---- table styles in pristine subprocesses -----------------------------------------------------------
 STYLE_NAMES = ["ascii", "solid", "borderless", "compact"]
-CUSTOMISATIONS = ["none", "vertical-chars", "horizontal-chars", "padding", "alignment", "border-style-object"]
+CUSTOMISATIONS = ["none", "vertical-chars", "horizontal-chars", "padding", "alignment", "border-style-object", "border-style-in-place"]
 
 
 def style_child():
@@ -260,6 +293,11 @@ def style_child():
                 st.default_column_alignment = Alignment.CENTER
             elif what == "border-style-object":
                 st.border_style.style = Style().fg("red")
+            elif what == "border-style-in-place":
+                # tuned through the fluent mutators of whatever style object the border carries
+                if st.border_style.style is None:
+                    st.border_style.style = Style()
+                st.border_style.style.fg("red").bold()
     out = {}
     for name in spec["render"]:
         if name.startswith("fresh:"):
@@ -275,6 +313,12 @@ def style_child():
         io.set_terminal_dimensions(Rectangle(60, 20))
         t.render(io)
         out[name] = io.fetch_output()
+        from clikit.formatter import AnsiFormatter
+
+        io = BufferedIO("", AnsiFormatter(forced=True))
+        io.set_terminal_dimensions(Rectangle(60, 20))
+        t.render(io)
+        out[name] += "\n-- decorated --\n" + io.fetch_output()
     sys.stdout.write(json.dumps(out))
 
 
